@@ -25,7 +25,7 @@ PROP = {'gen': [],
                'abstracted to tokens (C02/C03). Two boundary behaviours are recorded as known findings. No axioms.',
  'technique': 'Coq proof (invariants of a transition system under arbitrary schedules) + scripted pty correspondence; partial',
  'design_ref': 'DESIGN.md 6.17',
- 'n_quick': 140,
+ 'n_quick': 300,
  'n_thorough': 1500,
  'shard': 40,
  'level': 'proof',
